@@ -1259,7 +1259,13 @@ class DirectiveParser(Parser):
         initial_pos = self.pos
         try:
             self.match_value(Identifier, "ifdef")
-            identifier = self.match_type(Identifier)
+            # A malformed operand ("#ifdef (X)", "#ifdef 0", none at all)
+            # is an error only where the directive is evaluated; in a
+            # skipped group the directive still opens a conditional.
+            try:
+                operand = [self.match_type(Identifier)]
+            except ParseError:
+                operand = self.tokens[self.pos :]
 
             # Wrap expression in "defined()" call
             prefix = [
@@ -1267,7 +1273,7 @@ class DirectiveParser(Parser):
                 Punctuator("Unknown", -1, False, "("),
             ]
             suffix = [Punctuator("Unknown", -1, False, ")")]
-            expr = prefix + [identifier] + suffix
+            expr = prefix + operand + suffix
 
             return IfNode(self.tokens, expr)
         except ParseError:
@@ -1284,7 +1290,13 @@ class DirectiveParser(Parser):
         initial_pos = self.pos
         try:
             self.match_value(Identifier, "ifndef")
-            identifier = self.match_type(Identifier)
+            # A malformed operand ("#ifndef (X)", "#ifndef 0", none at all)
+            # is an error only where the directive is evaluated; in a
+            # skipped group the directive still opens a conditional.
+            try:
+                operand = [self.match_type(Identifier)]
+            except ParseError:
+                operand = self.tokens[self.pos :]
 
             # Wrap expression in "!defined()" call
             prefix = [
@@ -1293,7 +1305,7 @@ class DirectiveParser(Parser):
                 Punctuator("Unknown", -1, False, "("),
             ]
             suffix = [Punctuator("Unknown", -1, False, ")")]
-            expr = prefix + [identifier] + suffix
+            expr = prefix + operand + suffix
 
             return IfNode(self.tokens, expr)
         except ParseError:
